@@ -251,7 +251,7 @@ def _run(ctx, quick, broken, exes, driver, tmp, gen_info, only_replay):
             results[futs[f]] = f.result()
     ctx.say("executions done")
     # ---------------------------------------------------------------- evaluate
-    tot = dict(collections=0, checked=0, nodes=0, edges=0, freed=0, forced=0, safepoints=0, dumps=0, opaque_collections=0)
+    tot = dict(pending_streams=0, collections=0, checked=0, nodes=0, edges=0, freed=0, forced=0, safepoints=0, dumps=0, opaque_collections=0)
     label_edges, crit_seen = {}, {}
     n_exec = 0
     nviol_before = ctx.nviol
@@ -357,6 +357,7 @@ def _run(ctx, quick, broken, exes, driver, tmp, gen_info, only_replay):
         "samples": [j.key() for _, j in jobs[:3]] + [j.key() for _, j in jobs[-3:]],
         "collections_total": tot["collections"], "collections_graph_checked": tot["checked"], "graph_nodes_visited": tot["nodes"],
         "graph_edges_visited": tot["edges"], "blocks_freed_checked": tot["freed"], "safepoints": tot["safepoints"], "forced_collections": tot["forced"],
+        "pending_stream_root_checks": tot["pending_streams"],
         "collections_with_unknown_abstract_gcmark": tot["opaque_collections"],
         "edge_labels_seen": dict(sorted(label_edges.items())), "edge_labels_exclusive_max": dict(sorted(crit_seen.items())),
         "schedule_variant_histogram": sched_hist, "generated_statement_kinds": dict(sorted(kinds.items())),
